@@ -106,6 +106,15 @@ macro_rules! div {
 // TODO implement standard operators with panics, let the linter guarantee the type compatibility
 
 /// Creates an integer variant, if the value fits the range of an integer.
+/// A floating point result that is too big for its type is an overflow.
+fn check_finite(v: Variant) -> Result<Variant, VariantError> {
+    match v {
+        Variant::VSingle(f) if f.is_infinite() => Err(VariantError::Overflow),
+        Variant::VDouble(d) if d.is_infinite() => Err(VariantError::Overflow),
+        _ => Ok(v),
+    }
+}
+
 fn checked_integer(n: i32) -> Result<Variant, VariantError> {
     if (MIN_INTEGER..=MAX_INTEGER).contains(&n) {
         Ok(Variant::VInteger(n))
@@ -216,6 +225,10 @@ impl Variant {
     }
 
     pub fn plus(self, other: Self) -> Result<Self, VariantError> {
+        self.do_plus(other).and_then(check_finite)
+    }
+
+    fn do_plus(self, other: Self) -> Result<Self, VariantError> {
         match self {
             Self::VSingle(f_left) => match other {
                 Self::VSingle(f_right) => Ok(Self::VSingle(f_left + f_right)),
@@ -248,6 +261,10 @@ impl Variant {
     }
 
     pub fn minus(self, other: Self) -> Result<Self, VariantError> {
+        self.do_minus(other).and_then(check_finite)
+    }
+
+    fn do_minus(self, other: Self) -> Result<Self, VariantError> {
         match self {
             Self::VSingle(f_left) => match other {
                 Self::VSingle(f_right) => Ok(Self::VSingle(f_left - f_right)),
@@ -277,6 +294,10 @@ impl Variant {
     }
 
     pub fn multiply(self, other: Self) -> Result<Self, VariantError> {
+        self.do_multiply(other).and_then(check_finite)
+    }
+
+    fn do_multiply(self, other: Self) -> Result<Self, VariantError> {
         match self {
             Self::VSingle(f_left) => match other {
                 Self::VSingle(f_right) => Ok(Self::VSingle(f_left * f_right)),
@@ -343,6 +364,10 @@ impl Variant {
     /// a single otherwise), even if it happens to be a whole number, and however
     /// small it is.
     pub fn divide_fp(self, other: Self) -> Result<Self, VariantError> {
+        self.do_divide_fp(other).and_then(check_finite)
+    }
+
+    fn do_divide_fp(self, other: Self) -> Result<Self, VariantError> {
         let is_double = matches!(self, Self::VDouble(_) | Self::VLong(_))
             || matches!(other, Self::VDouble(_) | Self::VLong(_));
         match (self.as_f64(), other.as_f64()) {
